@@ -260,11 +260,73 @@ let run_fetch () =
     done
   with End_of_file -> ())
 
+(* ------------------------------------------------------------------------------------------------ e2e (level B) *)
+let run_e2e () =
+  let pubs = ref [] (* (name string, version n, content) *) and cur = ref None and cbs = ref [] and store = ref "" in
+  let vtyp = typVersion in
+  (try
+    while true do
+      let line = input_line stdin in
+      match String.split_on_char ' ' line with
+      | ["E2E"; st] -> incr ncases; pubs := []; cur := None; cbs := []; store := st
+      | ["PUB"; nm; ver; content] -> pubs := (nm, n_of_dec ver, bytes_of_field content) :: List.filter (fun (a, v, _) -> not (a = nm && v = n_of_dec ver)) !pubs
+      | ["REM"; nm; ver] -> pubs := List.filter (fun (a, v, _) -> not (a = nm && v = n_of_dec ver)) !pubs
+      | ["CONSUME"; nm; pol; mode; dropped; late; dups] -> cur := Some (nm, pol, mode, int_of_string dropped); cbs := []
+      | ["CB"; _; complete; err; progress; max; chunk] ->
+          cbs := { cb_complete = (complete = "1"); cb_err = (if err = "-" then None else Some (n_of_dec err));
+                   cb_progress = nat_of_int (int_of_string progress);
+                   cb_max = (if max = "-" then None else Some (nat_of_int (int_of_string max)));
+                   cb_chunk = (if chunk = "none" then None else Some (bytes_of_field chunk)) } :: !cbs
+      | ["LATE"; k] ->
+          (match !cur with
+           | None -> print_endline "BADLINE LATE without CONSUME"
+           | Some (nm, pol, mode, dropped) ->
+               let log = List.rev !cbs in
+               let name = name_of_string nm in
+               let (objname, wanted) = match List.rev name with
+                 | c :: rest when N.eqb c.ctyp vtyp -> (string_of_name (List.rev rest), Some (N.modulo (be_val c.cval) two64))
+                 | _ -> (nm, None) in
+               let cands = List.filter (fun (a, _, _) -> a = objname) !pubs in
+               let expected = match wanted with
+                 | Some v -> (match List.filter (fun (_, v', _) -> v' = v) cands with (_, _, c) :: _ -> Some c | [] -> None)
+                 | None -> List.fold_left (fun acc (_, v, c) -> match acc with
+                              | Some (bv, _) when not (N.ltb bv v) -> acc
+                              | _ -> Some (v, c)) None cands |> Option.map snd in
+               let may_fail = (mode = "blackhole" && dropped > 0) in
+               let sigp = Printf.sprintf "e2e:%s:%s" !store mode in
+               let detail = Printf.sprintf "CONSUME %s %s: %d callbacks, %d completion(s), delivered %d bytes, expected %s" nm pol (List.length log)
+                   (int_of_nat (completions log)) (List.length (log_chunks log))
+                   (match expected with Some c -> string_of_int (List.length c) ^ " bytes" | None -> "an error (nothing published under that name)") in
+               if k <> "0" then oracle (sigp ^ ":callback-after-completion") detail
+               else (match expected with
+                 | Some content ->
+                     if not (consume_log_ok content may_fail log) then begin
+                       let delivered = log_chunks log in
+                       let kind =
+                         if completions log = O then "never-completed"
+                         else if int_of_nat (completions log) > 1 then "completed-more-than-once"
+                         else if List.exists (fun (_, _, c) -> c = delivered && c <> content) !pubs then "not-newest-version"
+                         else if List.exists (fun r -> r.cb_err <> None) log then "unexpected-error"
+                         else "wrong-content" in
+                       oracle (sigp ^ ":" ^ kind) detail end
+                 | None ->
+                     let ok = int_of_nat (completions log) = 1 &&
+                              (match List.rev log with last :: _ -> last.cb_complete && last.cb_err <> None | [] -> false) in
+                     if not ok then oracle (sigp ^ ":served-unpublished") detail));
+          cur := None
+      | ["END"] -> ()
+      | "BAD" :: _ -> oracle "e2e:bad" (short line)
+      | [""] | [] -> ()
+      | _ -> print_endline ("BADLINE " ^ short line)
+    done
+  with End_of_file -> ())
+
 let () =
   let mode = if Array.length Sys.argv > 1 then Sys.argv.(1) else "produce" in
   (match mode with
    | "produce" -> run_produce ()
    | "store" -> run_store ()
    | "fetch" -> run_fetch ()
+   | "e2e" -> run_e2e ()
    | _ -> print_endline ("BADLINE unknown mode " ^ mode));
   Printf.printf "DONE %d\n" !ncases
